@@ -366,7 +366,18 @@ def cmd_check(pid, tier, seed):
                     continue
                 health_errors.append("%s: essential class '%s' never generated" % (sub, lab))
 
-    # ---- 3. confirm violations (replay 3x), print
+    # ---- 3. confirm violations (replay 3x), print.  One report per failure class (message up to the first ':' or '(').
+    deduped, seen_classes = [], set()
+    for path, msg in violations:
+        cls = (os.path.basename(path).split("-")[0], re.sub(r"\d", "#", re.split(r"[:(]", msg, 1)[0])[:80])
+        if cls in seen_classes:
+            continue
+        seen_classes.add(cls)
+        deduped.append((path, msg))
+    suppressed = len(violations) - len(deduped)
+    if suppressed:
+        notes.append("%d further failing case(s) of already reported failure classes not listed" % suppressed)
+    violations = deduped
     confirmed = []
     for path, msg in violations:
         part = find_part(chk, path)
